@@ -1,7 +1,8 @@
 --------------------------- MODULE Gen_Containers ---------------------------
 (* Behaviour export: one JSON line per generated transition of the control *)
 (* skeleton.  Skeleton of handle 1: per element whether it is named, holds *)
-(* an object, which earlier element holds the same object / name, number   *)
+(* an object (shareable or not), which earlier element holds the same      *)
+(* object / name, number                                                   *)
 (* and fill of nested elements; buffer present, no-copy; of the other      *)
 (* handles: buffer present, shares with handle 1, element count.  Which    *)
 (* object / name sits where is symmetric and hidden.                       *)
@@ -19,9 +20,10 @@ Bound == /\ Len(hist) <= MaxDepth
 \* position of the first element with the same object / name (0: none held)
 FirstO(s, i) == IF s[i].o = 0 THEN 0 ELSE CHOOSE j \in 1..i : s[j].o = s[i].o /\ \A k \in 1..(j - 1) : s[k].o # s[i].o
 FirstN_(s, i) == IF s[i].n = 0 THEN 0 ELSE CHOOSE j \in 1..i : s[j].n = s[i].n /\ \A k \in 1..(j - 1) : s[k].n # s[i].n
-Shape(s) == [i \in 1..Len(s) |-> <<FirstO(s, i), FirstN_(s, i),
+Shape(s) == [i \in 1..Len(s) |-> <<FirstO(s, i), FirstN_(s, i), s[i].o # 0 /\ IsSolo(s[i].o),
                                    [j \in 1..Len(s[i].sub) |-> <<s[i].sub[j].n # 0, s[i].sub[j].o # 0>>]>>]
 Skel == <<kind, Shape(rec[1].data), IsNull(1), rec[1].nc,
-          [h \in H \ {1} |-> <<IsNull(h), h \in share[1], Len(rec[h].data)>>]>>
+          [h \in H \ {1} |-> <<IsNull(h), h \in share[1], Len(rec[h].data),
+                                 \E i \in 1..Len(rec[h].data) : rec[h].data[i].o # 0 /\ IsSolo(rec[h].data[i].o)>>]>>
 Emit == PrintT(<<"BEHAV", ToJson(hist')>>)
 =============================================================================
